@@ -4,7 +4,7 @@
 From DV Require Import Run_C04.
 Open Scope Z_scope.
 
-(* directed-K1-literal-backslash : {'by_literal': 1, 'by_param': 1, 'frame': 1, 'generator': ['ascii: 554 cases, 0 refused, 0 frame violations', 'bool: 4 cases, 0 refused, 0 frame violations', 'default: 120 cases, 0 refused, 0 frame violations', 'directed: 11 cases, 0 refused, 0 frame violations', 'float: 210 cases, 0 refused, 0 fram *)
+(* directed-K1-literal-backslash : {'by_literal': 1, 'by_param': 1, 'frame': 1, 'generator': ['alias: 319 cases, 0 refused, 0 frame violations', 'ascii: 554 cases, 0 refused, 0 frame violations', 'base64: 158 cases, 88 refused, 0 frame violations', 'bool: 4 cases, 0 refused, 0 frame violations', 'default: 120 cases, 0 refused, 0 fram *)
 Definition w_K1_literal_backslash : c04case := CStr HLiteral [97%N; 92%N; 92%N; 98%N].
 Lemma w_K1_literal_backslash_holds : spec_C04 w_K1_literal_backslash (run_C04 w_K1_literal_backslash) = true /\ known_C04 w_K1_literal_backslash = [].
 Proof. vm_compute. split; reflexivity. Qed.
@@ -57,4 +57,89 @@ Proof. vm_compute. split; reflexivity. Qed.
 (* directed-param-sql : {'by_literal': 1, 'by_param': 1, 'frame': 1, 'note': '', 'read_back': ''; DROP TABLE _node; --', 'stored_raw': ''; DROP TABLE _node; --', 'text': ''; DROP TABLE _node; --'} *)
 Definition w_ok_param_sql : c04case := CStr HParam [39%N; 59%N; 32%N; 68%N; 82%N; 79%N; 80%N; 32%N; 84%N; 65%N; 66%N; 76%N; 69%N; 32%N; 95%N; 110%N; 111%N; 100%N; 101%N; 59%N; 32%N; 45%N; 45%N].
 Lemma w_ok_param_sql_holds : spec_C04 w_ok_param_sql (run_C04 w_ok_param_sql) = true /\ known_C04 w_ok_param_sql = [].
+Proof. vm_compute. split; reflexivity. Qed.
+
+(* directed-json-object-over-object : {'assigned_text': '{\'a\' :2}', 'by_param': 1, 'field': 'j', 'frame': 1, 'note': '', 'previous': '{\'a\':1,\'b\':{\'x\':1,\'y\':2},\'c\':[1,2]}', 'read_back': {'a': 2}, 'update': true} *)
+Definition w_json_object_over_object : c04case := CJson HParam true true (Some (JObject [([97%N], (JInt 1)); ([98%N], (JObject [([120%N], (JInt 1)); ([121%N], (JInt 2))])); ([99%N], (JArray [(JInt 1); (JInt 2)]))])) (JObject [([97%N], (JInt 2))]).
+Lemma w_json_object_over_object_holds : spec_C04 w_json_object_over_object (run_C04 w_json_object_over_object) = true /\ known_C04 w_json_object_over_object = [].
+Proof. vm_compute. split; reflexivity. Qed.
+
+(* directed-json-null-member : {'assigned_text': '{\'b\':{ \'x\':null}}', 'by_param': 1, 'field': 'j', 'frame': 1, 'note': '', 'previous': '{\'a\':1,\'b\':{\'x\':1,\'y\':2},\'c\':[1,2]}', 'read_back': {'b': {'x': null}}, 'update': true} *)
+Definition w_json_null_member : c04case := CJson HLiteral true true (Some (JObject [([97%N], (JInt 1)); ([98%N], (JObject [([120%N], (JInt 1)); ([121%N], (JInt 2))])); ([99%N], (JArray [(JInt 1); (JInt 2)]))])) (JObject [([98%N], (JObject [([120%N], JNull)]))]).
+Lemma w_json_null_member_holds : spec_C04 w_json_null_member (run_C04 w_json_null_member) = true /\ known_C04 w_json_null_member = [].
+Proof. vm_compute. split; reflexivity. Qed.
+
+(* directed-json-empty-object-over-object : {'assigned_text': '{}', 'by_param': 1, 'field': 'jp', 'frame': 1, 'note': '', 'previous': '{\'a\':1,\'b\':{\'x\':1,\'y\':2},\'c\':[1,2]}', 'read_back': {}, 'update': true} *)
+Definition w_json_empty_over_object : c04case := CJson HParam true false (Some (JObject [([97%N], (JInt 1)); ([98%N], (JObject [([120%N], (JInt 1)); ([121%N], (JInt 2))])); ([99%N], (JArray [(JInt 1); (JInt 2)]))])) (JObject []).
+Lemma w_json_empty_over_object_holds : spec_C04 w_json_empty_over_object (run_C04 w_json_empty_over_object) = true /\ known_C04 w_json_empty_over_object = [].
+Proof. vm_compute. split; reflexivity. Qed.
+
+(* directed-json-array-over-object : {'assigned_text': '[{\'a\' : null}]', 'by_param': 1, 'field': 'j', 'frame': 1, 'note': '', 'previous': '{\'a\':1,\'b\':{\'x\':1,\'y\':2},\'c\':[1,2]}', 'read_back': [{'a': null}], 'update': true} *)
+Definition w_json_array_over_object : c04case := CJson HParam true true (Some (JObject [([97%N], (JInt 1)); ([98%N], (JObject [([120%N], (JInt 1)); ([121%N], (JInt 2))])); ([99%N], (JArray [(JInt 1); (JInt 2)]))])) (JArray [(JObject [([97%N], JNull)])]).
+Lemma w_json_array_over_object_holds : spec_C04 w_json_array_over_object (run_C04 w_json_array_over_object) = true /\ known_C04 w_json_array_over_object = [].
+Proof. vm_compute. split; reflexivity. Qed.
+
+(* directed-json-null-over-object : {'assigned_text': 'null', 'by_param': 2, 'field': 'j', 'frame': 1, 'note': '', 'previous': '{\'a\':1,\'b\':{\'x\':1,\'y\':2},\'c\':[1,2]}', 'read_back': null, 'update': true} *)
+Definition w_json_null_over_object : c04case := CJson HLiteral true true (Some (JObject [([97%N], (JInt 1)); ([98%N], (JObject [([120%N], (JInt 1)); ([121%N], (JInt 2))])); ([99%N], (JArray [(JInt 1); (JInt 2)]))])) JNull.
+Lemma w_json_null_over_object_holds : spec_C04 w_json_null_over_object (run_C04 w_json_null_over_object) = true /\ known_C04 w_json_null_over_object = [].
+Proof. vm_compute. split; reflexivity. Qed.
+
+(* directed-json-over-default : {'assigned_text': '{\'e\':1}', 'by_param': 1, 'field': 'jd', 'frame': 1, 'note': '', 'previous': null, 'read_back': {'e': 1}, 'update': true} *)
+Definition w_json_over_default : c04case := CJson HParam true false (Some (JObject [([100%N], (JArray [(JInt 1)]))])) (JObject [([101%N], (JInt 1))]).
+Lemma w_json_over_default_holds : spec_C04 w_json_over_default (run_C04 w_json_over_default) = true /\ known_C04 w_json_over_default = [].
+Proof. vm_compute. split; reflexivity. Qed.
+
+(* directed-json-null-refused : {'assigned_text': 'null', 'by_param': -1, 'field': 'jp', 'frame': 0, 'note': 'execute: 'v' is not nullable', 'previous': null, 'read_back': null, 'update': false} *)
+Definition w_json_null_refused : c04case := CJson HParam false false None JNull.
+Lemma w_json_null_refused_holds : spec_C04 w_json_null_refused (run_C04 w_json_null_refused) = true /\ known_C04 w_json_null_refused = [].
+Proof. vm_compute. split; reflexivity. Qed.
+
+(* base64 : {'field': 'bd', 'note': '', 'read_back': '', 'text': '', 'update': true} *)
+Definition w_b64_empty : c04case := CB64 HParam true [].
+Lemma w_b64_empty_holds : spec_C04 w_b64_empty (run_C04 w_b64_empty) = true /\ known_C04 w_b64_empty = [].
+Proof. vm_compute. split; reflexivity. Qed.
+
+(* base64 : {'field': 'b', 'note': 'execute: 'AB' is not a base64 value', 'read_back': null, 'text': 'AB', 'update': true} *)
+Definition w_b64_noncanonical : c04case := CB64 HParam true [65%N; 66%N].
+Lemma w_b64_noncanonical_holds : spec_C04 w_b64_noncanonical (run_C04 w_b64_noncanonical) = true /\ known_C04 w_b64_noncanonical = [].
+Proof. vm_compute. split; reflexivity. Qed.
+
+(* base64 : {'field': 'bp', 'note': 'execute: 'AA==' is not a base64 value', 'read_back': null, 'text': 'AA==', 'update': true} *)
+Definition w_b64_padded : c04case := CB64 HParam true [65%N; 65%N; 61%N; 61%N].
+Lemma w_b64_padded_holds : spec_C04 w_b64_padded (run_C04 w_b64_padded) = true /\ known_C04 w_b64_padded = [].
+Proof. vm_compute. split; reflexivity. Qed.
+
+(* base64 : {'field': 'bp', 'note': '', 'read_back': '-_8', 'text': '-_8', 'update': false} *)
+Definition w_b64_urlsafe : c04case := CB64 HParam false [45%N; 95%N; 56%N].
+Lemma w_b64_urlsafe_holds : spec_C04 w_b64_urlsafe (run_C04 w_b64_urlsafe) = true /\ known_C04 w_b64_urlsafe = [].
+Proof. vm_compute. split; reflexivity. Qed.
+
+(* alias : {'alias': 'select', 'query': 'query { select: S (order_by(select asc)) { select: n name } }'} *)
+Definition w_alias_keyword : c04case := CAlias [115%N; 101%N; 108%N; 101%N; 99%N; 116%N] (Build_emodel [83%N] [48%N] [(Build_fdef [110%N; 97%N; 109%N; 101%N] [51%N; 50%N] TStr false None); (Build_fdef [110%N] [51%N; 51%N] TInt false (Some (VInt 3)))]) (Build_query (Some [115%N; 101%N; 108%N; 101%N; 99%N; 116%N]) [Build_selfield 1 (Some [115%N; 101%N; 108%N; 101%N; 99%N; 116%N]); Build_selfield 0 None] [] [Build_okey (FByAlias 0) Asc] (OLit (VInt 0)) None PNone) (Build_query (Some [120%N; 49%N]) [Build_selfield 1 (Some [120%N; 49%N]); Build_selfield 0 None] [] [Build_okey (FByAlias 0) Asc] (OLit (VInt 0)) None PNone).
+Lemma w_alias_keyword_holds : spec_C04 w_alias_keyword (run_C04 w_alias_keyword) = true /\ known_C04 w_alias_keyword = [].
+Proof. vm_compute. split; reflexivity. Qed.
+
+(* alias : {'alias': 'a\'b', 'query': 'query { a\'b: S (order_by(a\'b asc)) { a\'b: n name } }'} *)
+Definition w_alias_dquote : c04case := CAlias [97%N; 34%N; 98%N] (Build_emodel [83%N] [48%N] [(Build_fdef [110%N; 97%N; 109%N; 101%N] [51%N; 50%N] TStr false None); (Build_fdef [110%N] [51%N; 51%N] TInt false (Some (VInt 3)))]) (Build_query (Some [97%N; 34%N; 98%N]) [Build_selfield 1 (Some [97%N; 34%N; 98%N]); Build_selfield 0 None] [] [Build_okey (FByAlias 0) Asc] (OLit (VInt 0)) None PNone) (Build_query (Some [120%N; 49%N]) [Build_selfield 1 (Some [120%N; 49%N]); Build_selfield 0 None] [] [Build_okey (FByAlias 0) Asc] (OLit (VInt 0)) None PNone).
+Lemma w_alias_dquote_holds : spec_C04 w_alias_dquote (run_C04 w_alias_dquote) = true /\ known_C04 w_alias_dquote = [].
+Proof. vm_compute. split; reflexivity. Qed.
+
+(* alias : {'alias': 'a b', 'query': 'query { a b: S (order_by(a b asc)) { a b: n name } }'} *)
+Definition w_alias_space : c04case := CAlias [97%N; 32%N; 98%N] (Build_emodel [83%N] [48%N] [(Build_fdef [110%N; 97%N; 109%N; 101%N] [51%N; 50%N] TStr false None); (Build_fdef [110%N] [51%N; 51%N] TInt false (Some (VInt 3)))]) (Build_query (Some [97%N; 32%N; 98%N]) [Build_selfield 1 (Some [97%N; 32%N; 98%N]); Build_selfield 0 None] [] [Build_okey (FByAlias 0) Asc] (OLit (VInt 0)) None PNone) (Build_query (Some [120%N; 49%N]) [Build_selfield 1 (Some [120%N; 49%N]); Build_selfield 0 None] [] [Build_okey (FByAlias 0) Asc] (OLit (VInt 0)) None PNone).
+Lemma w_alias_space_holds : spec_C04 w_alias_space (run_C04 w_alias_space) = true /\ known_C04 w_alias_space = [].
+Proof. vm_compute. split; reflexivity. Qed.
+
+(* search : {'fts5': '', 'term': 'hello'} *)
+Definition w_search_plain : c04case := CSearch [104%N; 101%N; 108%N; 108%N; 111%N] true.
+Lemma w_search_plain_holds : spec_C04 w_search_plain (run_C04 w_search_plain) = true /\ known_C04 w_search_plain = [].
+Proof. vm_compute. split; reflexivity. Qed.
+
+(* search : {'fts5': 'read: unterminated string', 'term': 'hello\''} *)
+Definition w_K5_search_quote : c04case := CSearch [104%N; 101%N; 108%N; 108%N; 111%N; 34%N] false.
+Lemma w_K5_search_quote_refuted : spec_C04 w_K5_search_quote (run_C04 w_K5_search_quote) = false /\ known_C04 w_K5_search_quote = [5].
+Proof. vm_compute. split; reflexivity. Qed.
+
+(* search : {'fts5': 'read: no such column: name', 'term': 'name:hello'} *)
+Definition w_K5_search_column : c04case := CSearch [110%N; 97%N; 109%N; 101%N; 58%N; 104%N; 101%N; 108%N; 108%N; 111%N] false.
+Lemma w_K5_search_column_refuted : spec_C04 w_K5_search_column (run_C04 w_K5_search_column) = false /\ known_C04 w_K5_search_column = [5].
 Proof. vm_compute. split; reflexivity. Qed.
